@@ -173,6 +173,23 @@ theorem context_teardowns_sequential (a : Nat) (cs : List Ctx) (x : List Nat) :
   | nil => rfl
   | cons i l ih => simp [exitAll, ih]
 
+/-- **A start-up cut short by the cancellation of `setup()` is not recorded and never
+completes.**  If the task awaiting `runner.setup()` is cancelled while context `k` is
+starting (all earlier ones started), exactly the contexts before `k` are recorded for
+cleanup, `k`'s start-up code does not complete (no `entered` event — nothing is shielded),
+and `CancelledError` propagates. -/
+theorem cancelled_startup_is_not_recorded (a i : Nat) (pre post : List Ctx) (x : Fail)
+    (hpre : ∀ c ∈ pre, c.enter = .ok) :
+    (enterAll a i (pre ++ ⟨.xcancel, x⟩ :: post)).entered = List.range' i pre.length ∧
+    (enterAll a i (pre ++ ⟨.xcancel, x⟩ :: post)).err = some .cancelled ∧
+    enteredOf (enterAll a i (pre ++ ⟨.xcancel, x⟩ :: post)).ev = (List.range' i pre.length).map (fun j => (a, j)) := by
+  induction pre generalizing i with
+  | nil => simp [enterAll, failErr]
+  | cons c pre ih =>
+    have hc : c.enter = .ok := hpre c (by simp)
+    have := ih (i + 1) (fun c' hc' => hpre c' (by simp [hc']))
+    simp [enterAll, hc, this, List.range'_succ]
+
 /-- Whenever start-up succeeds, `_run_app` and `AppRunner` produce the same log (any table). -/
 theorem run_app_eq_runner_when_startup_succeeds (tbl : List AppDef)
     (h : (Runner.step tbl {} .setup).err = none) : lifeLog tbl .runApp = lifeLog tbl .runner := by
